@@ -1,0 +1,194 @@
+//go:build verif
+
+package pogreb
+
+import (
+	"github.com/akrylysov/pogreb/internal/hash"
+)
+
+// This file is compiled only with the "verif" build tag. It exposes internals
+// to the verification harness under /verif and changes no behaviour.
+
+// VerifSetThresholds sets the unexported segment size and compaction thresholds.
+func VerifSetThresholds(o *Options, maxSegmentSize, compactionMinSegmentSize uint32, compactionMinFragmentation float32) {
+	o.maxSegmentSize = maxSegmentSize
+	o.compactionMinSegmentSize = compactionMinSegmentSize
+	o.compactionMinFragmentation = compactionMinFragmentation
+}
+
+// VerifSlot is an index slot.
+type VerifSlot struct {
+	Hash      uint32
+	SegmentID uint16
+	KeySize   uint16
+	ValueSize uint32
+	Offset    uint32
+}
+
+// VerifBucket is one bucket of a chain.
+type VerifBucket struct {
+	Main   bool
+	Offset int64
+	Next   int64
+	Slots  []VerifSlot // Slots before the first empty one.
+	Raw    [slotsPerBucket]VerifSlot
+}
+
+// VerifIndex is a dump of the index.
+type VerifIndex struct {
+	Level        uint8
+	Split        uint32
+	NumBuckets   uint32
+	NumKeys      uint32
+	Free         []int64
+	MainSize     int64
+	OverflowSize int64
+	Chains       [][]VerifBucket
+}
+
+// VerifSegment describes an open segment.
+type VerifSegment struct {
+	ID         uint16
+	SequenceID uint64
+	Name       string
+	Size       int64
+	Current    bool
+	Meta       segmentMeta
+}
+
+// VerifSegmentMeta is the exported name of the segment meta type.
+type VerifSegmentMeta = segmentMeta
+
+// VerifIndexDump walks the whole index.
+func VerifIndexDump(db *DB) (VerifIndex, error) {
+	db.mu.RLock()
+	defer db.mu.RUnlock()
+	idx := db.index
+	d := VerifIndex{
+		Level:        idx.level,
+		Split:        idx.splitBucketIdx,
+		NumBuckets:   idx.numBuckets,
+		NumKeys:      idx.numKeys,
+		Free:         append([]int64(nil), idx.freeBucketOffs...),
+		MainSize:     idx.main.size,
+		OverflowSize: idx.overflow.size,
+	}
+	for bi := uint32(0); bi < idx.numBuckets; bi++ {
+		var chain []VerifBucket
+		it := idx.newBucketIterator(bi)
+		main := true
+		for {
+			b, err := it.next()
+			if err == ErrIterationDone {
+				break
+			}
+			if err != nil {
+				return d, err
+			}
+			vb := VerifBucket{Main: main, Offset: b.offset, Next: b.next}
+			main = false
+			seenEmpty := false
+			for i := 0; i < slotsPerBucket; i++ {
+				sl := b.slots[i]
+				vs := VerifSlot{sl.hash, sl.segmentID, sl.keySize, sl.valueSize, sl.offset}
+				vb.Raw[i] = vs
+				if sl.offset == 0 {
+					seenEmpty = true
+				}
+				if !seenEmpty {
+					vb.Slots = append(vb.Slots, vs)
+				}
+			}
+			chain = append(chain, vb)
+			if len(chain) > 1<<20 {
+				break // Cycle guard.
+			}
+		}
+		d.Chains = append(d.Chains, chain)
+	}
+	return d, nil
+}
+
+// VerifSegments lists the open segments ordered by id.
+func VerifSegments(db *DB) []VerifSegment {
+	db.mu.RLock()
+	defer db.mu.RUnlock()
+	var out []VerifSegment
+	for _, seg := range db.datalog.segments {
+		if seg == nil {
+			continue
+		}
+		out = append(out, VerifSegment{
+			ID:         seg.id,
+			SequenceID: seg.sequenceID,
+			Name:       seg.name,
+			Size:       seg.size,
+			Current:    seg == db.datalog.curSeg,
+			Meta:       *seg.meta,
+		})
+	}
+	return out
+}
+
+// VerifCurrentSegment returns the id and name of the current segment and whether it is still registered.
+func VerifCurrentSegment(db *DB) (uint16, string, bool) {
+	db.mu.RLock()
+	defer db.mu.RUnlock()
+	cur := db.datalog.curSeg
+	return cur.id, cur.name, db.datalog.segments[cur.id] == cur
+}
+
+// VerifHashSeed returns the hash seed of the DB.
+func VerifHashSeed(db *DB) uint32 {
+	return db.hashSeed
+}
+
+// VerifHash is the hash function of the index.
+func VerifHash(key []byte, seed uint32) uint32 {
+	return hash.Sum32WithSeed(key, seed)
+}
+
+// VerifEncodeRecord encodes a segment record.
+func VerifEncodeRecord(key, value []byte, del bool) []byte {
+	if del {
+		return encodeRecord(key, value, recordTypeDelete)
+	}
+	return encodeRecord(key, value, recordTypePut)
+}
+
+// VerifMarshalBucket encodes a bucket.
+func VerifMarshalBucket(slots []VerifSlot, next int64) []byte {
+	b := bucket{next: next}
+	for i, s := range slots {
+		b.slots[i] = slot{s.Hash, s.SegmentID, s.KeySize, s.ValueSize, s.Offset}
+	}
+	data, _ := b.MarshalBinary()
+	return data
+}
+
+// VerifUnmarshalBucket decodes a bucket.
+func VerifUnmarshalBucket(data []byte) ([]VerifSlot, int64) {
+	b := bucket{}
+	_ = b.UnmarshalBinary(data)
+	out := make([]VerifSlot, slotsPerBucket)
+	for i, sl := range b.slots {
+		out[i] = VerifSlot{sl.hash, sl.segmentID, sl.keySize, sl.valueSize, sl.offset}
+	}
+	return out, b.next
+}
+
+// VerifHeader returns the encoded file header.
+func VerifHeader() []byte {
+	data, _ := newHeader().MarshalBinary()
+	return data
+}
+
+// VerifSegmentName formats a segment file name.
+func VerifSegmentName(id uint16, seq uint64) string {
+	return segmentName(id, seq)
+}
+
+// VerifParseSegmentName parses a segment file name.
+func VerifParseSegmentName(name string) (uint16, uint64, error) {
+	return parseSegmentName(name)
+}
